@@ -54,7 +54,7 @@ pub fn prepare(types: &[Ty], cfg: &CConfig, clang: &str, level2: bool, label: &s
     let t1 = Instant::now();
     let built = cc::build_so(clang, &files, clang).map_err(PrepErr::Compile)?;
     Ok(Prepared {
-        build: ChunkBuild { so: built.so, cfg: *cfg, funcs, names, level2: hs.level2, label: label.to_string() },
+        build: ChunkBuild { so: built.so, cfg: *cfg, funcs, names, level2: hs.level2, free_missing: hs.free_missing, label: label.to_string() },
         cached: built.cached,
         ms_generate,
         ms_clang: t1.elapsed().as_millis() as u64,
